@@ -1467,6 +1467,12 @@ def sysabs(hkl, syscond, crystal_system='triclinic', cell_choice='standard'):
                 k = -(hkl[0]+hkl[1])
                 l = hkl[2]
                 sys_type = sysabs_unique([h, k, l], syscond)
+    elif crystal_system == 'cubic':
+        # the three-fold axis makes cyclic permutations of hkl equivalent
+        if sys_type == 0:
+            sys_type = sysabs_unique([hkl[1], hkl[2], hkl[0]], syscond)
+            if sys_type == 0:
+                sys_type = sysabs_unique([hkl[2], hkl[0], hkl[1]], syscond)
 
     return sys_type
     
